@@ -172,7 +172,8 @@ def recipes(col, pp, vidx):
 # ---- (d) a recipe is a holder of values too: a refused bake leaves it exactly as it was -------------------------------------
 def _recipe_fp(recipe):
     return (tuple(sorted((k, e1.exact_obj(v)) for k, v in recipe.results.items())), tuple(sorted(map(str, recipe.used))),
-            tuple(sorted((k, (v.start, v.stop)) for k, v in recipe.stages.items())), recipe.current_stage, bool(recipe.locked),
+            tuple(sorted((k, (v.start, v.stop)) for k, v in recipe.stages.items())),
+            (recipe.current_stage, getattr(recipe, 'current_stage_start', None)), bool(recipe.locked),
             tuple((s.operator, len(s.frm), len(s.to),
                    tuple(e1.exact_obj(x) if x is not None and not isinstance(x, str) else x for x in list(s.frm) + list(s.to)),
                    tuple(sorted((x.name, repr(a)) for x, a in s.trash.items())), tuple(sorted(map(str, s.objects_used))),
@@ -204,6 +205,7 @@ def _refused_bake_case(prog_idx):
     # declaring and step-adding calls that the recipe refuses (a name that is taken, an undeclared object, a stage that is
     # open / not open): whatever they raise, the recipe and the objects are left exactly as they were
     nacl, water = subs['nacl'], subs['water']
+    declared_container = next((world[n] for n in out_names + [extra] if not e1.is_plate(world[n])), None)
     for label, call in (('create_container', lambda: recipe.create_container(extra, '5 mL')),
                         ('create_container', lambda: recipe.create_container(extra, '5 mL', [(water, '1 mL')])),
                         ('create_solution', lambda: recipe.create_solution(nacl, water, name=extra, concentration='0.5 M',
@@ -211,7 +213,16 @@ def _refused_bake_case(prog_idx):
                         ('uses', lambda: recipe.uses(pp.Container(extra, '1 mL'))),
                         ('transfer', lambda: recipe.transfer(pp.Container('nobody', '1 mL', [(water, '0.5 mL')]), world[extra], '1 uL')),
                         ('remove', lambda: recipe.remove(pp.Container('nobody', '1 mL'), water)),
-                        ('start_stage', lambda: recipe.start_stage('s')), ('end_stage', lambda: recipe.end_stage('zz'))):
+                        ('start_stage', lambda: recipe.start_stage('s')), ('start_stage', lambda: recipe.start_stage('t')),
+                        ('end_stage', lambda: recipe.end_stage('zz')),
+                        # refused only after the cheap argument checks: a target the stock cannot be diluted to
+                        ('create_solution_from', lambda: recipe.create_solution_from(declared_container, nacl, '0 M', water, '1 mL',
+                                                                                     name='fresh')),
+                        ('create_solution_from', lambda: recipe.create_solution_from(declared_container, nacl, '-1 M', water,
+                                                                                     '1 mL')),
+                        ('dilute', lambda: recipe.dilute(declared_container, nacl, '0 M', water))):
+        if declared_container is None and label in ('create_solution_from', 'dilute'):
+            continue
         try:
             call()
             return [], ('accepted-refusable', label)         # accepting it is C16's matter; the recipe is not comparable any more
@@ -265,6 +276,157 @@ def refused_bakes(col, pp, vidx, depth):
     col.cov.setdefault('refused_bakes', []).append({'valuation': vidx, 'programs': len(programs), 'refused_bakes_fingerprinted': n})
 
 
+# ---- (e) looking is not touching: an operation on objects that were looked at returns what it returns on objects that were not ----
+def _answers(pp, subs, o):
+    """What a fixed set of read-only queries says about an object (errors included)."""
+    out = []
+
+    def ask(label, fn):
+        try:
+            r = fn()
+            out.append((label, repr(sorted(x.name for x in r)) if isinstance(r, (set, frozenset)) else repr(getattr(r, 'tolist', lambda: r)())))
+        except Exception as e:  # noqa
+            out.append((label, 'raises ' + type(e).__name__))
+    if e1.is_plate(o):
+        ask('get_volumes', lambda: o.get_volumes(unit='uL'))
+        ask('get_substances', lambda: o.get_substances())
+        for n in ('water', 'nacl', 'lipase'):
+            ask(f'get_moles({n})', lambda: o.get_moles(subs[n], unit='umol'))
+        ask('get_volume', lambda: o.get_volume('uL'))
+    else:
+        ask('get_volume', lambda: o.get_volume('uL'))
+        ask('get_substances', lambda: o.get_substances())
+        ask('has_liquid', lambda: o.has_liquid())
+        ask('repr', lambda: (repr(o), str(o)))
+        for n in ('water', 'nacl', 'dmso', 'lipase'):
+            for u in ('M', 'g/L', 'm', '%w/w'):
+                ask(f'get_concentration({n},{u})', lambda: o.get_concentration(subs[n], u))
+    return out
+
+
+def _looked_case(idx):
+    pp, vidx, alphabet = _G['pp'], _G['vidx'], _G['alphabet']
+    act = alphabet[idx]
+    case = {'vidx': vidx, 'looked_at': act}
+    worlds = []
+    for look in (True, False):
+        subs, world = e1.build(pp, vidx, e1.W_DEFAULT, e1.seed_history_P())
+        first = None
+        if look:
+            first = {n: _answers(pp, subs, o) for n, o in sorted(world.items())}
+        try:
+            obs = e1.apply(pp, subs, world, act)
+        except env.InternalError:
+            raise
+        post = e1.commit(world, obs) if obs['ok'] else world
+        worlds.append((subs, world, post, obs, first))
+    (s1, w1, p1, o1, first), (s2, w2, p2, o2, _) = worlds
+    site = f"{act['op']}"
+    if o1['ok'] != o2['ok']:
+        return [V(f"{site} | depends-on-having-been-looked-at | outcome", f"{e1.act_str(act)} {'returns' if o1['ok'] else 'raises'} on objects "
+                  f"whose read-only queries were called before and {'returns' if o2['ok'] else 'raises'} on objects that were never looked at",
+                  case)], (act['op'], 'outcome')
+    if e1.exact_world(p1) != e1.exact_world(p2):
+        return [V(f"{site} | depends-on-having-been-looked-at | results", f"{e1.act_str(act)} gives other objects when the arguments' "
+                  f"read-only queries (get_concentration, get_volume, get_substances, get_volumes, get_moles, repr) were called before",
+                  case)], (act['op'], 'results')
+    for n in sorted(p1):
+        a1, a2 = _answers(pp, s1, p1[n]), _answers(pp, s2, p2[n])
+        if a1 != a2:
+            d = next((x, y) for x, y in zip(a1, a2) if x != y)
+            return [V(f"{site} | depends-on-having-been-looked-at | answers-about-the-result",
+                      f"after {e1.act_str(act)}, {n}.{d[0][0]} = {d[0][1]} when the arguments had been looked at before the call and "
+                      f"{d[1][1]} when not (equal objects: the earlier look travelled into the result)", case, d[1][1], d[0][1])], \
+                (act['op'], 'answers')
+    # a second look at the untouched arguments says what the first look said
+    again = {n: _answers(pp, s1, o) for n, o in sorted(w1.items())}
+    if again != first:
+        n = next(k for k in first if first[k] != again[k])
+        return [V(f"{site} | second-look-differs | arguments", f"{n}: the read-only queries answer differently after {e1.act_str(act)} "
+                  f"than before it although {n} is a value", case)], (act['op'], 'second-look')
+    return [], (act['op'], 'ok' if o1['ok'] else 'raised')
+
+
+def looked_at(col, pp, vidx):
+    alphabet = [a for a in C03.full_alphabet() if a['op'] != 'add'] + alphabets.geometry_sweep()[::5]
+    _G.update(pp=pp, vidx=vidx, alphabet=alphabet)
+    res = par.pmap(_looked_case, list(range(len(alphabet))))
+    classes = set()
+    for vs, oc in res:
+        col.add(vs)
+        classes.add(oc)
+    col.count('transitions', 2 * len(alphabet))
+    col.count('traces', len(alphabet))
+    col.count('evaluations', len(alphabet))
+    col.note_nontrivial({report.digest(('L', vidx, c)) for c in classes})
+    col.cov.setdefault('looked_at', []).append({'valuation': vidx, 'actions': len(alphabet), 'classes': len(classes)})
+
+
+# ---- (f) the recipe's queries are read-only: asking one does not change what another answers -----------------------------------
+def _query_case(prog_idx):
+    from .. import e2
+    pp, vidx, voc = _G['pp'], _G['vidx'], _G['voc']
+    program = [voc[i] for i in prog_idx]
+    b = e2.bake(pp, vidx, program)
+    if not b['ok']:
+        return [], ('not-baked',)
+    recipe, results, subs = b['recipe'], b['results'], b['subs']
+    case = {'vidx': vidx, 'query_program': program}
+    text = ' ; '.join(e1.act_str(a) for a in program)
+
+    def ask_all():
+        out = []
+        for n, o in sorted(results.items()):
+            for label, fn in (('flows', lambda: recipe.get_container_flows(o, 'all', 'uL')),
+                              ('remaining', lambda: recipe.get_amount_remaining(o, 'all', 'uL')),
+                              ('remaining-before', lambda: recipe.get_amount_remaining(o, 'all', 'uL', 'before'))):
+                try:
+                    r = fn()
+                    r = {k: getattr(v, 'tolist', lambda v=v: v)() for k, v in r.items()} if isinstance(r, dict) else \
+                        getattr(r, 'tolist', lambda: r)()
+                    out.append((label, n, repr(r)))
+                except Exception as e:  # noqa
+                    out.append((label, n, 'raises ' + type(e).__name__))
+        for sn in ('water', 'nacl', 'dmso', 'lipase'):
+            unit = 'U' if sn == 'lipase' else 'umol'
+            for dest in ('plates', 'all-results'):
+                try:
+                    d = "plates" if dest == 'plates' else list(results.values())
+                    out.append(('used', sn + '/' + dest, repr(recipe.get_substance_used(subs[sn], 'all', unit, d))))
+                except Exception as e:  # noqa
+                    out.append(('used', sn + '/' + dest, 'raises ' + type(e).__name__))
+        return out
+    fp = (_recipe_fp(recipe), {n: e1.exact_obj(o) for n, o in results.items()})
+    first = ask_all()
+    second = ask_all()
+    if first != second:
+        d = next((x, y) for x, y in zip(first, second) if x != y)
+        return [V(f"Recipe.{'get_container_flows' if d[0][0] == 'flows' else 'get_amount_remaining' if d[0][0].startswith('remaining') else 'get_substance_used'}"
+                  f" | answer-changed-by-queries | query={d[0][0]}",
+                  f"[{text}] baked; {d[0][0]}({d[0][1]}) answered {d[0][2]} first and {d[1][2]} after the other read-only queries "
+                  f"(flows, amount remaining, substance used) had been asked", case, d[0][2], d[1][2])], ('changed',)
+    if (_recipe_fp(recipe), {n: e1.exact_obj(o) for n, o in results.items()}) != fp:
+        return [V("Recipe | recipe-state-changed | read-only-queries", f"[{text}] baked; the read-only queries changed the recipe or "
+                  f"the baked objects", case)], ('recipe-changed',)
+    return [], ('same', len(program))
+
+
+def queries_read_only(col, pp, vidx, depth):
+    from .. import e2
+    voc, programs, _ = e2.successful_programs(pp, vidx, depth)
+    _G.update(pp=pp, vidx=vidx, voc=voc)
+    res = par.pmap(_query_case, programs, chunk=4)
+    classes = set()
+    for vs, oc in res:
+        col.add(vs)
+        classes.add(oc)
+    col.count('transitions', 2 * len(programs))
+    col.count('traces', len(programs))
+    col.count('evaluations', len(programs))
+    col.note_nontrivial({report.digest(('Q', vidx, c)) for c in classes})
+    col.cov.setdefault('queries_read_only', []).append({'valuation': vidx, 'programs': len(programs)})
+
+
 def run(col):
     pp = env.load()
     col.rule = ("exact structural fingerprints (name, contents, volume, capacity, instructions, every well, labels; slices: "
@@ -272,7 +434,10 @@ def run(col):
                 "call, returned or raised, and of every object produced earlier on the history, along every history of the "
                 "full operation menu incl. failing calls (depth 2 quick / 3 thorough) and the geometry sweep; every "
                 "(slice geometry x op x op) with one slice object held across both calls; every action as a recipe "
-                "(declare, add, bake, second recipe on the results). Non-trivial = distinct observation classes")
+                "(declare, add, bake, second recipe on the results); (e) every action of the menu on a world whose objects were "
+                "looked at (all read-only queries) and on one that was not: same outcome, same objects, same answers about the results, and "
+                "a second look at the arguments repeats the first; (f) every successful E2 program of <= 2 steps baked, then every tracking "
+                "query asked twice with all the others in between: same answers, recipe and objects unchanged. Non-trivial = distinct observation classes")
     col.assumptions += ["instruction text is part of the fingerprint; numpy arrays are compared element-wise via the wells"]
     vals = [col.seed % 3] if col.tier == 'quick' else [0, 1, 2]
     for v in vals:
@@ -281,6 +446,8 @@ def run(col):
         held_slices(col, pp, v)
         refused_bakes(col, pp, v, 2 if col.tier == 'quick' else 3)
         recipes(col, pp, v)
+        looked_at(col, pp, v)
+        queries_read_only(col, pp, v, 2)
         e1.Explorer(pp, v, e1.W_DEFAULT, e1.seed_history_P(), C03.full_alphabet(), MONS, 'F', track_path=True).run(
             2 if col.tier == 'quick' else 3, col)
         e1.Explorer(pp, v, e1.W_DEFAULT, e1.seed_history_P(), alphabets.geometry_sweep(), MONS, 'G/S0',
@@ -289,6 +456,12 @@ def run(col):
 
 def replay(case):
     pp = env.load()
+    if 'query_program' in case:
+        _G.update(pp=pp, vidx=case['vidx'], voc=case['query_program'])
+        return _query_case(tuple(range(len(case['query_program']))))[0]
+    if 'looked_at' in case:
+        _G.update(pp=pp, vidx=case['vidx'], alphabet=[case['looked_at']])
+        return _looked_case(0)[0]
     if 'refused_bake_program' in case:
         from .. import e2
         voc = case['refused_bake_program']
